@@ -3,7 +3,7 @@
    the facts it rests on, for every word width / every input; the checked walker skips siblings
    with the validating skipper (Model/SkipAll.v). *)
 From Coq Require Import List Bool Arith NArith ZArith.
-From SonicV Require Import Model.Bitmap Model.PrefixXor Model.Bracket Model.SkipAll Model.Skip.
+From SonicV Require Import Spec.Ref Model.Bitmap Model.PrefixXor Model.Bracket Model.SkipAll Model.Skip Model.RefSound.
 Local Close Scope N_scope.
 Local Open Scope nat_scope.
 Import ListNotations.
@@ -28,3 +28,8 @@ Proof. exact scan_finds_matching. Qed.
 Theorem checked_skip_is_value : forall fuel l rest, skip_value fuel l = Some rest ->
   exists w v, l = w ++ v ++ rest /\ all_ws w /\ Value v.
 Proof. exact skip_value_sound. Qed.
+
+(* the span the reference reports for a value is its exact source span: no surrounding whitespace *)
+Theorem reference_span_is_exact : forall strict fuel pos l v a b rest, pvalue strict fuel pos l = Some (v, a, b, rest) ->
+  exists w tok, l = w ++ tok ++ rest /\ all_ws w /\ Value tok /\ a = pos + length w /\ b = a + length tok.
+Proof. intros strict fuel. exact (proj1 (pvalue_sound strict fuel)). Qed.
